@@ -415,11 +415,28 @@ func TestVerif_C12(t *testing.T) {
 			switch x := m.(type) {
 			case *mocrelay.ServerNoticeMsg:
 			case *mocrelay.ServerOKMsg:
-				if x.Accepted || !offenders[x.EventID] {
+				// a rejecting OK must name an event that one of the offending frames carries
+				named := offenders[x.EventID]
+				for _, f := range frames {
+					if !named && !f.valid && x.EventID != "" && bytes.Contains(f.data, []byte(x.EventID)) {
+						named = true
+					}
+				}
+				if x.Accepted || !named {
 					rep.Violation("rejection/wrong-form", "an OK that is not a rejection of an offending event: "+vk.DescribeServerMsg(m), wit(nil))
 					return
 				}
 			case *mocrelay.ServerClosedMsg:
+				named := false
+				for _, f := range frames {
+					if !f.valid && x.SubscriptionID != "" && bytes.Contains(f.data, []byte(x.SubscriptionID)) {
+						named = true
+					}
+				}
+				if !named {
+					rep.Violation("rejection/wrong-form", "a CLOSED that names no subscription of an offending frame: "+vk.DescribeServerMsg(m), wit(nil))
+					return
+				}
 			default:
 				rep.Violation("rejection/wrong-form", "a frame was answered by "+vk.DescribeServerMsg(m), wit(nil))
 				return
